@@ -84,6 +84,11 @@ class RtlReader(object):
                 frame_end = frame_start + frame_length
                 frame_pulses = self.signal_buffer[frame_start:frame_end]
 
+                if len(frame_pulses) == 0:
+                    # the buffer ends right after the preamble: no pulses to slice
+                    i = frame_start
+                    continue
+
                 threshold = max(frame_pulses) * 0.2
 
                 msgbin: list[int] = []
